@@ -16,12 +16,14 @@ Act(e) == CASE e.op = "New" -> New(e.o, [m \in Member |-> e.init[m]])
             [] e.op = "WGet" -> WGet(e.o, e.m, e.v)
             [] e.op = "LSet" -> LSet(e.o, e.m, e.v)
             [] e.op = "LGet" -> LGet(e.o, e.m, e.v)
+            [] e.op = "WBad" -> WBad(e.o, e.m, e.v)
             [] OTHER -> FALSE /\ UNCHANGED mvars      \* "WErr": the accessor raised an exception / does not exist
 Why(e) == IF e.o \notin Obj THEN <<"unknown object", e.op>>
           ELSE IF e.op = "WErr" THEN <<"accessor is missing or raised an exception", e.m>>
           ELSE IF e.op = "New" THEN <<"object constructed twice", e.o>>
           ELSE IF e.o \notin live THEN <<"object is not alive", e.op, e.o>>
           ELSE IF e.op = "WSet" /\ e.m \in ReadOnly THEN <<"setter exists for a read-only member", e.m>>
+          ELSE IF e.op = "WBad" THEN <<"setter accepted a value of the wrong type", e.m>>
           ELSE IF e.op = "WGet" THEN <<"getter did not return the member's value", e.m, e.v, val[e.o][e.m]>>
           ELSE IF e.op = "LGet" THEN <<"library does not see the value the setter stored", e.m, e.v, val[e.o][e.m]>>
           ELSE <<"event not allowed", e.op>>
